@@ -2771,9 +2771,15 @@ class Deb822FileElement(Deb822Element):
     def _check_paragraph_is_free(self, paragraph):
         # type: (Deb822ParagraphElement) -> None
         """A paragraph can be placed in one file only, and there only once"""
-        if paragraph.parent_element is not None:
-            if paragraph.parent_element is self:
-                raise ValueError("Paragraph is already a part of this file")
+        parent = paragraph.parent_element
+        if parent is None:
+            return
+        # The link alone does not tell: a copy made with copy.deepcopy() still
+        # names the file of its original.  What counts is where it stands.
+        if any(part is paragraph for part in self.iter_parts()):
+            raise ValueError("Paragraph is already a part of this file")
+        if parent is not self and any(part is paragraph
+                                      for part in parent.iter_parts()):
             raise ValueError("Paragraph is already part of another Deb822File")
 
     def _set_parent(self, t):
